@@ -772,7 +772,9 @@ class _NumericOperationsImpl(OperationsBlock):
             else:
                 clipped = from_corearray(opx.clip(x._core(), min._core(), max._core()))
             if isinstance(x.dtype, (dtypes.Floating, dtypes.NullableFloating)):
-                return ndx.where(ndx.isnan(input), np.nan, clipped)
+                # keep the promoted dtype: a bare np.nan would promote float32 to float64
+                nan = ndx.asarray(np.nan).astype(clipped.dtype)
+                return ndx.where(ndx.isnan(input), nan, clipped)
             else:
                 return clipped
         else:
@@ -781,7 +783,8 @@ class _NumericOperationsImpl(OperationsBlock):
             if min is not None:
                 x = ndx.where(x >= min, x, min)
             if isinstance(x.dtype, (dtypes.Floating, dtypes.NullableFloating)):
-                return ndx.where(ndx.isnan(input), np.nan, x)
+                nan = ndx.asarray(np.nan).astype(x.dtype)
+                return ndx.where(ndx.isnan(input), nan, x)
             elif min is None and max is None:
                 return input
             else:
